@@ -155,6 +155,37 @@ def tok(x):
     return ['FOther', type(x).__name__, repr(x)]
 
 
+def mutate_in_place(x):
+    """modify a decoded value object in place, as user code may do with an object it was handed
+    (the stored text must keep deciding what later reads return). Returns True when something changed."""
+    I = Impl.get()
+    if isinstance(x, I.Tags):
+        x.tags.append('mutated')
+        return True
+    if not isinstance(x, I.cl.JSONField):
+        return False
+    for k, v in list(x.__dict__.items()):
+        if isinstance(v, bool):
+            x.__dict__[k] = not v
+            return True
+        if isinstance(v, int):
+            x.__dict__[k] = v + 97
+            return True
+        if isinstance(v, str):
+            x.__dict__[k] = v + '~'
+            return True
+        if isinstance(v, float):
+            x.__dict__[k] = v + 1.5
+            return True
+        if isinstance(v, list):
+            x.__dict__[k] = v + ['~']
+            return True
+    for k in x.__dict__:
+        x.__dict__[k] = 'mutated'
+        return True
+    return False
+
+
 def c_string(s):
     assert all(32 <= ord(c) < 127 for c in s), s
     return '"' + s.replace('"', '""') + '"%string'
@@ -594,10 +625,22 @@ class Flat(Stream):
                'link': 'link'}[k]
         d = observing(lambda: getattr(G, fam + '_sliver_to_graph_properties_dict')(sl))
         back = None
+        again = None
         if not is_err(d):
-            back = observing(lambda: abs_attrs(getattr(G, fam + '_sliver_from_graph_properties_dict')(dict(d))))
+            holder = {}
+
+            def rebuild():
+                holder['sl'] = getattr(G, fam + '_sliver_from_graph_properties_dict')(dict(d))
+                return abs_attrs(holder['sl'])
+            back = observing(rebuild)
+            if not is_err(back):
+                # modify every decoded value object in place, then decode the SAME properties once more:
+                # what comes back must depend on the stored text only
+                n = sum(1 for v in holder['sl'].__dict__.values() if mutate_in_place(v))
+                if n:
+                    again = observing(lambda: abs_attrs(getattr(G, fam + '_sliver_from_graph_properties_dict')(dict(d))))
             d = abs_props(d)
-        return {'a': a, 'd': d, 'back': back}
+        return {'a': a, 'd': d, 'back': back, 'again': again}
 
     def to_coq(self, case, o):
         if 'build_err' in o:
@@ -618,6 +661,13 @@ class Flat(Stream):
             return 'NEW | rebuilding the sliver from its properties raised %s %s' % (o['back']['err'], o['back']['msg'])
         devs = []
         diff_attrs(case['k'], o['a'], o['back'], case['k'], devs)
+        if o.get('again') is not None:
+            if is_err(o['again']):
+                devs.append((None, 'decoding the same properties a second time raised ' + o['again']['err']))
+            elif json.dumps(o['again']) != json.dumps(o['back']):
+                diff = [k for (k, v), (_, w) in zip(o['back'], o['again']) if json.dumps(v) != json.dumps(w)]
+                devs.append((None, 'decoding the same properties again, after the first result was modified in place, '
+                                   'returns different values for %s' % diff[:4]))
         return verdict(devs)
 
     def key(self, case, o):
@@ -944,7 +994,7 @@ class Element(Stream):
             elif r < 0.55:
                 ops.append(['unset', p])
             elif r < 0.9:
-                ops.append(['get', p])
+                ops.append(['get' if rng.random() < 0.85 else 'getmut', p])
             else:
                 ps = rng.sample(voc, rng.randint(1, 3))
                 if kind == 'node' and rng.random() < 0.5:
@@ -963,6 +1013,12 @@ class Element(Stream):
                 self.cover[(k, p)] = self.cover.get((k, p), 0) + 1
                 out.append({'k': k, 'ops': [['get', p], ['unset', p], ['get', p], ['set', p, v], ['get', p],
                                             ['unset', p], ['get', p]]})
+        # a returned value object modified in place must not change what later reads return
+        for k in kinds:
+            for p in vocabulary(k):
+                v = gen_value(rng, k, p)
+                if v[0] in ('caps', 'hints', 'labels', 'rinfo', 'sinfo', 'loc', 'flags', 'tags'):
+                    out.append({'k': k, 'ops': [['set', p, v], ['getmut', p], ['get', p]]})
         # legal falsy values ('' / False / ()) written over a truthy one must be read back, not dropped
         for k in kinds:
             for p in ('details', 'boot_script', 'model'):
@@ -1010,9 +1066,12 @@ class Element(Stream):
                     expect.append(None)
                     e.set_property(op[1], None)
                     res.append('done')
-                elif op[0] == 'get':
+                elif op[0] in ('get', 'getmut'):
                     expect.append(None)
-                    res.append(['val', tok(e.get_property(op[1]))])
+                    got = e.get_property(op[1])
+                    res.append(['val', tok(got)])
+                    if op[0] == 'getmut':
+                        mutate_in_place(got)      # user code modifies the object it was handed; nothing is written
                 else:
                     expect.append(None)
                     e.set_properties(**{q: build_value(v) for q, v in op[1]})
@@ -1036,7 +1095,7 @@ class Element(Stream):
                 ops.append('OSet %s %s' % (c_string(op[1]), c_fval(tok(build_value(op[2])))))
             elif op[0] == 'unset':
                 ops.append('OUnset %s' % c_string(op[1]))
-            elif op[0] == 'get':
+            elif op[0] in ('get', 'getmut'):
                 ops.append('OGet %s' % c_string(op[1]))
             else:
                 ops.append('OSetMany %s' % clist(['(%s, %s)' % (c_string(q), c_ofval(tok(build_value(v)))) for q, v in op[1]]))
@@ -1146,7 +1205,7 @@ class Element(Stream):
         return None
 
     def histogram(self, cases, obs):
-        h = {'by_kind': {}, 'ops': {'set': 0, 'unset': 0, 'get': 0, 'setmany': 0}, 'raised_ops': 0}
+        h = {'by_kind': {}, 'ops': {'set': 0, 'unset': 0, 'get': 0, 'getmut': 0, 'setmany': 0}, 'raised_ops': 0}
         for c, o in zip(cases, obs):
             h['by_kind'][c['k']] = h['by_kind'].get(c['k'], 0) + 1
             for op in c['ops']:
